@@ -1,11 +1,15 @@
 #!/bin/bash
-# tools/sweep.sh <tier> <seed...> -- runs every claimed check for the given seeds; prints only non-held lines
+# tools/sweep.sh <tier> <seed...> -- runs every claimed check for the given seeds; prints the wall time of
+# each run and the details of every run that did not hold (evidence files are not touched)
 cd "$(dirname "$0")/.."
 TIER=$1; shift
 for s in "$@"; do
   for id in $(jq -r '.checks[].property_id' MANIFEST.json) ${EXTRA_IDS:-}; do
+    t0=$(date +%s)
     out=$(VERIF_NOEVIDENCE=1 VERIF_SEED=$s ./check $id $TIER 2>&1); rc=$?
-    if [ $rc -ne 0 ]; then echo "seed=$s $id rc=$rc"; echo "$out" | grep -v "^VIOLATION" | cut -c1-400 | head -6; fi
+    t1=$(date +%s)
+    echo "seed=$s $id rc=$rc $((t1-t0))s"
+    if [ $rc -ne 0 ]; then echo "$out" | grep -v "^VIOLATION" | cut -c1-400 | head -6; fi
   done
   echo "seed $s done"
 done
